@@ -670,13 +670,11 @@ def gen_c08(rng, size=50, allow_hx_tf=True, allow_ha_member_tf=True, wide=False)
     if with_ts and rng.random() < 0.3:
         # a gap-filling base timeframe would hand members a stream that contains synthetic candles only at
         # construction time; fill is therefore combined with member timeframes only when the base is raw
-        cfg["fill"] = wide or not (cfg["tf"] and member_tf)
+        cfg["fill"] = True   # (member managers are built from the candles as given since fix 3f78fc6: every combination is well defined)
     if with_ts and rng.random() < 0.25:
         cfg["life"] = gen.tf_seconds(base_tf) * rng.choice([0, 1, 3, 10, 20, 40]) + rng.choice([0, 0, 0, 1, gen.tf_seconds(base_tf) // 2])
     if cfg["ha"] and member_tf and not allow_ha_member_tf:
         cfg["ha"] = False
-    if cfg["ha"] and member_tf:
-        cfg["fill"] = False  # known finding: with gap filling on top, that combination does not terminate (watchdog)
     k = rng.choice([1, 2, 2, 3, 3, 4])
     members = []
     for _ in range(40):
@@ -829,9 +827,6 @@ def case_c08_roundtrip(rng, idx, params):
     tf = rng.choice(pool) if rng.random() < 0.5 else None
     full = rng.random() < 0.4
     cfg = {"fill": bool(tf) and rng.random() < 0.5, "life": rng.choice([None, 3600, 86400]), "ha": rng.random() < 0.4} if full else {}
-    if full and tf:
-        cfg["ha"] = False  # Heikin-Ashi + member timeframe inside a Hexital is reported by case_c08
-        cfg["life"] = None  # a lifespan trims the base candles before a member timeframe collapses them (outside C08's domain)
     n = rng.randint(12, 40)
     stream, _ = gen_stream_for(rng, n, base_tf, True, price_style=rng.choice(["walk", "walk", "ints", "jumpy"]), ts_style="regular")
     scn = {"check": "c08.roundtrip", "spec": spec, "tf": tf, "full": full, "cfg": cfg, "stream": stream}
@@ -1085,8 +1080,6 @@ def gen_c13(rng, size=50):
         # a member that carries its own candlestick type: the manager is the Hexital's, so it must not matter to the others
         # (nor depend on who registered first)
         members[rng.randrange(1, len(members))]["params"]["candlestick_type"] = "HA"
-    if cfg["ha"] and shared_tf:
-        cfg["ha"] = False  # that combination is C08's known finding, not an interference
     need = max([v for m in members for k, v in m["params"].items() if "period" in k and isinstance(v, int)] + [2])
     lo = min(size, need + 3)
     n = rng.randint(lo, max(lo, size))
@@ -1638,7 +1631,6 @@ def check_c19_enc(scn):
 
 def gen_c19_enc(rng, size=30):
     target, cfg, members, base_tf = gen_c19_objects(rng)
-    cfg["ha"] = False if target == "hexital" else cfg["ha"]
     with_ts = rng.random() < 0.85 or any(m["tf"] for m in members) or bool(cfg["tf"])
     n = rng.randint(2, size)
     stream, smeta = gen_stream_for(rng, n, base_tf, with_ts, ts_style=rng.choice(["regular", "regular", "gaps"]))
